@@ -55,6 +55,8 @@ func runC09(r *Run) {
 	c09R5(r, pf, rv, um)
 	r.Rule("C09.R6")
 	c09R6(r, pf, mf)
+
+	r.NilArgsRule("C09.R7", "tls")
 }
 
 // ---- R1: one offset-relative base ------------------------------------------------------
